@@ -131,6 +131,15 @@ def cases_for(rng, q):
         body = "HTTP/1.1 101 X\r\nUpgrade: websocket\r\n" + pad * (size // len(pad)) + "Sec-WebSocket-Accept: @A@\r\n\r\n"
         cases.append(("case", ["hs sync %s %s -1 %s 0" % (hx(body), rng.choice(["-", "700", "1024,1030"]), hx(frame(2, b"abc"))), "read", "read",
                                "hs async %s - -1 - 0" % hx(short), "read"]))
+    # more frame bytes behind the head than the decoder's buffer has room for without growing (4096): after a handshake whose long
+    # head made the handshake buffer grow (the capacity is kept), and behind a head above 8 KiB in one segment
+    many = b"".join(frame(1, bytes([65 + (i % 26)]) * 100) for i in range(60))
+    pad = "X-Pad: " + "p" * 70 + "\r\n"
+    long_head = "HTTP/1.1 101 X\r\nUpgrade: websocket\r\n" + pad * (5000 // len(pad)) + "Sec-WebSocket-Accept: @A@\r\n\r\n"
+    longer_head = "HTTP/1.1 101 X\r\nUpgrade: websocket\r\n" + pad * (9000 // len(pad)) + "Sec-WebSocket-Accept: @A@\r\n\r\n"
+    for mode in ("sync", "async"):
+        cases.append(("case", ["hs %s %s - -1 - 0" % (mode, hx(long_head)), "hs %s %s - -1 %s 0" % (mode, hx(short), hx(many))] + ["read"] * 62))
+        cases.append(("case", ["hs %s %s - -1 %s 0" % (mode, hx(longer_head), hx(many)), "read", "read"]))
     return cases
 
 
